@@ -101,6 +101,13 @@ impl BlockEncoder {
                 self.block_multiplex_index = 0;
             }
 
+            // The object is only finished when no other block has symbols left to send
+            let other_blocks_empty = self
+                .blocks
+                .iter()
+                .enumerate()
+                .all(|(index, block)| index == self.block_multiplex_index || block.is_empty());
+
             let block = &mut self.blocks[self.block_multiplex_index];
             let symbol = block.read();
             if symbol.is_none() {
@@ -119,7 +126,8 @@ impl BlockEncoder {
 
             let is_last_packet = (self.source_size_transferred
                 >= self.file.object.transfer_length as usize)
-                && *is_last_symbol;
+                && *is_last_symbol
+                && other_blocks_empty;
 
             return Some(pkt::Pkt {
                 payload: symbol.symbols.to_vec(),
